@@ -307,6 +307,23 @@ def script_flood(rng, kinds, n):
     return {"members": members, "steps": steps, "watch": 3000, "settle": 5}
 
 
+def script_pause(rng, kinds, n, pause_ms):
+    """A stream that pauses: n in-order packets (more than the smallest capacity of any per-packet map of the receive side),
+    time for the feedback tickers, a silence longer than every history window of the receive side (500 ms: TWCC arrival
+    times), then the stream resumes - with the next number, then with a late one and a jump."""
+    members, steps = prefix(rng, kinds, 7)
+    base = rng.choice([1000, 65400])
+    for i in range(n):
+        steps.append({"a": "rrtp", "s": 2, "w": (base + i) % 65536, "id": i, "len": 20, "shape": 0, "tw": (base + i) % 65536, "fail": False})
+    steps += [{"a": "wait", "ms": 20}, {"a": "wait", "ms": pause_ms}]
+    for j, d in enumerate([0, 1, -3, 2, 700, 701]):
+        w = (base + n + d) % 65536
+        steps.append({"a": "rrtp", "s": 2, "w": w, "id": n + j, "len": 20, "shape": 0, "tw": w, "fail": False})
+    steps += [{"a": "wait", "ms": 20}, {"a": "rrtp", "s": 2, "w": (base + n + 702) % 65536, "id": n + 9, "len": 20, "shape": 0,
+                                       "tw": (base + n + 702) % 65536, "fail": False}, {"a": "wait", "ms": 5}, {"a": "close"}]
+    return {"members": members, "steps": steps, "watch": 3000, "settle": 5}
+
+
 def script_out(rng, kinds):
     twcc = 7 if "twcchdr" in kinds else 0
     members, steps = prefix(rng, kinds, twcc)
@@ -432,6 +449,10 @@ def run(ctx):
         scripts.append(script_out(rng, kinds))
     for kinds in [["rfc8888"], ["rrecv"], ["nackgen"], ["stats"], ["twccsend"], ALL_CHAIN]:
         scripts.append(script_flood(rng, kinds, 400 if ctx.quick else 3000))
+    for kinds in [["twccsend"], ["rfc8888"], ["nackgen"], ["rrecv"], ["jitter"], ["stats"], ALL_CHAIN]:
+        scripts.append(script_pause(rng, kinds, 300, 560))
+        if not ctx.quick:
+            scripts.append(script_pause(rng, kinds, 1500, 1100))
     deep = deep_feedback(rng)
     for kinds in DEEP_TARGETS:
         for ch in chunks(deep if not ctx.quick else rng.sample(deep, 80), 40):
